@@ -314,7 +314,9 @@ func runCutCase(c *RCase, x *sim.Ctx) *sim.Violation {
 		st := site(k)
 		x.Count("cut-in."+b.Format+"."+st, 1)
 		sub := sim.NewCtx(false)
-		res := runReader(b.Format, b.Stream[:k], len(b.Content), c, len(b.Content)+4096, sub)
+		rc := *c
+		rc.PostErr = c04PostErr // a caller that keeps reading after the error
+		res := runReader(b.Format, b.Stream[:k], len(b.Content), &rc, len(b.Content)+4096, sub)
 		x.Step("api", sub.Counters["steps.api"])
 		x.Step("source", sub.Counters["steps.source"])
 		x.Ev("cut %d site=%s -> open=%v final=%v out=%d", k, st, res.OpenErr, res.Final, len(res.Out))
@@ -356,6 +358,12 @@ func judgeDamaged(res *RResult, content []byte, format, site, what string, mustF
 	}
 	if res.Final == nil && res.NoProg {
 		return sim.Viol("no-progress", format+":"+site, "%s: reader neither fails nor ends", what)
+	}
+	if mustFail && res.PostErrEOF {
+		// the error was reported, the caller read on (as bufio.Reader.WriteTo does
+		// after an error that came with data) and was then told that the stream
+		// had ended: the incomplete stream passes for a complete one after all
+		return sim.Viol("truncation-as-eof", format+":"+site+":after-error", "%s: Read reported %q, later reads went on to a clean end of stream (%d+%d of %d bytes)", what, res.Final.Error(), len(res.Out), len(res.PostErrOut), len(content))
 	}
 	return nil
 }
